@@ -15,19 +15,20 @@ import (
 
 // Knobs steer the random history generator toward what one property is about.
 type Knobs struct {
-	Clients        [2]int // min,max UDP clients
-	TCPClients     [2]int
-	Peers          [2]int
-	Steps          [2]int
-	V6             int                // percent of worlds with IPv6 listener/clients/peers
-	SecondListener int                // percent: a second UDP listener, a client with the same address on both
-	Deny           int                // percent of worlds with a deny policy
-	TimeoutSets    [][3]time.Duration // perm, chan, lifetime (0 = default)
-	Lifetimes      []int64            // requested lifetimes in seconds; -1 = absent
-	W              map[string]int     // op weights
-	MTUs           []int
-	MaxPayload     int
-	TCPAllocPct    int
+	Clients          [2]int // min,max UDP clients
+	TCPClients       [2]int
+	Peers            [2]int
+	Steps            [2]int
+	V6               int                // percent of worlds with IPv6 listener/clients/peers
+	SecondListener   int                // percent: a second UDP listener, a client with the same address on both
+	Deny             int                // percent of worlds with a deny policy
+	TimeoutSets      [][3]time.Duration // perm, chan, lifetime (0 = default)
+	SlowConnectEvery int                // every n-th case: an allocation expires while another client's Connect dials slowly
+	Lifetimes        []int64            // requested lifetimes in seconds; -1 = absent
+	W                map[string]int     // op weights
+	MTUs             []int
+	MaxPayload       int
+	TCPAllocPct      int
 	// TCPRelayEvery: every n-th case runs an RFC 6062 history (0 = never).
 	TCPRelayEvery int
 	// Impostor: percent of worlds with a second user acting from client c0's transport address.
@@ -42,6 +43,12 @@ var defaultTimeouts = [][3]time.Duration{
 	{20 * time.Minute, 7 * time.Minute, 45 * time.Minute},
 	{5 * time.Minute, 10 * time.Minute, 2 * time.Minute},
 	{10 * time.Minute, 10 * time.Minute, 30 * time.Second},
+	// operators set some of the three and leave the rest at their defaults (5 min, 10 min, 10 min)
+	{40 * time.Second, 0, 0},
+	{0, 45 * time.Second, 0},
+	{0, 0, 50 * time.Second},
+	{2 * time.Minute, 0, 90 * time.Second},
+	{0, 3 * time.Minute, 20 * time.Minute},
 }
 
 var defaultLifetimes = []int64{-1, -1, 1, 2, 59, 600, 1800, 3599, 3600, 3601, 86400, 1 << 31, 1<<32 - 1}
@@ -794,6 +801,11 @@ func histProp(cases map[string]int, k Knobs) PropDef {
 
 				return
 			}
+			if k.SlowConnectEvery > 0 && caseNo%k.SlowConnectEvery == k.SlowConnectEvery-2 {
+				runSlowConnect(t, rng, rec, tier, caseNo)
+
+				return
+			}
 			newHist(t, rng, rec, k).run()
 		},
 	}
@@ -810,12 +822,13 @@ func init() {
 	}))
 	register("C06", histProp(map[string]int{"quick": 1200, "thorough": 80000}, Knobs{
 		Clients: [2]int{1, 3}, TCPClients: [2]int{0, 1}, Peers: [2]int{2, 3}, Steps: [2]int{12, 30}, V6: 15,
-		TimeoutSets: [][3]time.Duration{{0, 0, 0}, {2 * time.Hour, 2 * time.Hour, 30 * time.Second}, {2 * time.Hour, 3 * time.Hour, 10 * time.Minute}, {90 * time.Minute, 2 * time.Hour, 45 * time.Minute}, {3 * time.Hour, 3 * time.Hour, 2 * time.Hour}},
+		TimeoutSets: [][3]time.Duration{{0, 0, 0}, {2 * time.Hour, 2 * time.Hour, 30 * time.Second}, {2 * time.Hour, 3 * time.Hour, 10 * time.Minute}, {90 * time.Minute, 2 * time.Hour, 45 * time.Minute}, {3 * time.Hour, 3 * time.Hour, 2 * time.Hour}, {0, 0, 45 * time.Second}, {0, 0, 25 * time.Minute}},
 		Lifetimes:   defaultLifetimes, W: weights(map[string]int{"allocate": 5, "refresh": 8, "refresh0": 2, "probe": 10, "perm": 3, "chan": 2, "data": 3}), TCPAllocPct: 10,
+		SlowConnectEvery: 30,
 	}))
 	register("C07", histProp(map[string]int{"quick": 1200, "thorough": 80000}, Knobs{
 		Clients: [2]int{1, 2}, Peers: [2]int{2, 5}, Steps: [2]int{15, 35}, V6: 15,
-		TimeoutSets: [][3]time.Duration{{0, 0, 4 * time.Hour}, {30 * time.Second, 2 * time.Minute, 4 * time.Hour}, {2 * time.Minute, 30 * time.Second, 4 * time.Hour}, {7 * time.Minute, 20 * time.Minute, 4 * time.Hour}, {20 * time.Minute, 7 * time.Minute, 4 * time.Hour}},
+		TimeoutSets: [][3]time.Duration{{0, 0, 4 * time.Hour}, {30 * time.Second, 2 * time.Minute, 4 * time.Hour}, {2 * time.Minute, 30 * time.Second, 4 * time.Hour}, {7 * time.Minute, 20 * time.Minute, 4 * time.Hour}, {20 * time.Minute, 7 * time.Minute, 4 * time.Hour}, {40 * time.Second, 0, 4 * time.Hour}, {0, 45 * time.Second, 4 * time.Hour}},
 		Lifetimes:   []int64{-1, 3599}, W: weights(map[string]int{"allocate": 1, "refresh": 2, "refresh0": 0, "perm": 8, "chan": 8, "probe": 12, "data": 3, "time": 2}),
 	}))
 }
